@@ -69,7 +69,8 @@ def _c18(failure, fd):
 
 
 def check(run, record_expected=False):
-    ded = deductive.run_deductive(run, ["doctrans.pure_utils:unquote"])  # shared leaf; the property's own obligations are the typed constants
+    ded = deductive.run_deductive(run, ["doctrans.pure_utils:unquote", "doctrans.defaults_utils:needs_quoting",
+                                            "doctrans.docstring_parsers:_set_name_and_type"])  # NQ-norm: a wrapped type line re-joins before it is parsed
     if record_expected:
         return ded
     deductive.add_evaluated(run, ded, type_obligations(), "doctrans.pure_utils:line_length")
@@ -94,13 +95,15 @@ def check(run, record_expected=False):
                         {"kind": "wrap", "rt_kind": f["kind"], "width": w, "path": f["path"], "label": f["label"], "want": f.get("want"),
                          "got": f.get("got"), "wrapped_changed": f.get("wrapped_changed")})
     coverage = {
-        "explanation": "DEDUCTIVE: type obligations on the module constants (line_length: int, fill bound to it): %d of %d. BOUNDED decider "
+        "explanation": "DEDUCTIVE: type obligations on the module constants (line_length: int, fill bound to it) and the re-joining contracts "
+                       "(needs_quoting NQ-norm: the type text handed to the parser has no line break; _set_name_and_type): %d of %d. BOUNDED decider "
                        "(relational contract): parse(emit(ir, wrap=True)) == parse(emit(ir, wrap=False)) modulo runs of whitespace, for %d widths "
                        "(one subprocess each: the width is read at import) x 7 kinds x 50 IRs whose summary / prose / type strings are shorter "
                        "than, equal to and much longer than the width; every emitter must also succeed." % (ded["discharged"], ded["obligations"], len(widths)),
         "evaluations": total, "distinct_nontrivial": total, "samples": samples, "exhaustive": True,
         "rule": "widths x kinds x generated IRs; all distinct and non-trivial (two parameters each)",
-        "obligations": ded["obligations"], "discharged": ded["discharged"],
+        "obligations": ded["obligations"], "discharged": ded["discharged"], "functions_under_contract": ded["functions_under_contract"],
+        "by_backend": ded["by_backend"], "undecided": ded["undecided"], "solver_ms_total": ded["solver_ms_total"],
         "bounded": {"cases": total, "diff_entries": n_fail, "widths": list(widths), "bound": "50 IRs per width"},
     }
-    return run.finish("other", coverage, ["bounded: the width sweep and IR set", "textwrap.fill is trusted to change only whitespace between words"])
+    return run.finish("other", coverage, ["bounded: the width sweep and IR set", "textwrap.fill is trusted to change only whitespace between words"] + ded["assumed"])
